@@ -185,6 +185,7 @@ class Checker:
                 'incomplete': self.incomplete,
                 'functions_equivalent_to_reference_modulo_normal_form': getattr(self.repo, 'equivalent', {}),
                 'locals_renamed_to_reference': {k: v for k, v in getattr(self.repo, 'renames', {}).items()},
+                'new_private_helpers_inlined': getattr(self.repo, 'inlined', {}),
                 'exhaustive': False,
             },
             'assumptions': self.assumptions,
